@@ -373,7 +373,8 @@ def str_method(prop="C05"):
         a type extending it shares these objects, and the page their URL names is not written"""
         par = sel(H(v, "parent"), v.self)
         has_par = z3.Select(v._e.has_array(v._p, "parent"), v.self)
-        return z3.And(has_par, par != 0, c.classes.is_a(par, "FortranType"), z3.Not(sel(H(v, "visible"), par)))
+        # (a type of an external project carries no `visible` flag: its page exists in that project's documentation)
+        return z3.And(has_par, par != 0, c.classes.is_a(par, "FortranType"), z3.Select(v._e.has_array(v._p, "visible"), par), z3.Not(sel(H(v, "visible"), par)))
 
     def post2(v0, res, v1):
         r = v1._e.to_str(v1._p, res)
